@@ -39,3 +39,66 @@ pub fn belt_alias<PAR: cipher::array::ArraySize>(key: [u8; 2], iv: &[u8]) -> bel
     preset_next(BELT_S0);
     belt_ctr::BeltCtr::<UfE<U16, PAR>>::new(&key.into(), blk::<U16>(iv))
 }
+
+/// Custom block-mode closures: drive a mode through its backend's `*_inplace` entry points
+/// (first block via `*_block_inplace`, one full parallel group via `*_par_blocks_inplace` when it
+/// fits, the rest via `*_tail_blocks_inplace` or single blocks).  `encrypt_with_backend` /
+/// `decrypt_with_backend` are public, so this is a public way of feeding blocks.
+pub struct InplaceEnc<'a, BS: cipher::array::ArraySize> {
+    pub blocks: &'a mut [Array<u8, BS>],
+}
+impl<BS: cipher::crypto_common::BlockSizes> cipher::BlockSizeUser for InplaceEnc<'_, BS> {
+    type BlockSize = BS;
+}
+impl<BS: cipher::crypto_common::BlockSizes> cipher::BlockModeEncClosure for InplaceEnc<'_, BS> {
+    fn call<B: cipher::BlockModeEncBackend<BlockSize = BS>>(self, backend: &mut B) {
+        use cipher::typenum::Unsigned;
+        let w = B::ParBlocksSize::USIZE;
+        let mut rest = self.blocks;
+        if let Some((first, r)) = rest.split_first_mut() {
+            backend.encrypt_block_inplace(first);
+            rest = r;
+        }
+        if w > 1 && rest.len() >= w {
+            let (g, r) = rest.split_at_mut(w);
+            backend.encrypt_par_blocks_inplace(<&mut Array<Array<u8, BS>, B::ParBlocksSize>>::try_from(g).unwrap());
+            rest = r;
+        }
+        if rest.len() < w {
+            backend.encrypt_tail_blocks_inplace(rest);
+        } else {
+            for b in rest.iter_mut() {
+                backend.encrypt_block_inplace(b);
+            }
+        }
+    }
+}
+pub struct InplaceDec<'a, BS: cipher::array::ArraySize> {
+    pub blocks: &'a mut [Array<u8, BS>],
+}
+impl<BS: cipher::crypto_common::BlockSizes> cipher::BlockSizeUser for InplaceDec<'_, BS> {
+    type BlockSize = BS;
+}
+impl<BS: cipher::crypto_common::BlockSizes> cipher::BlockModeDecClosure for InplaceDec<'_, BS> {
+    fn call<B: cipher::BlockModeDecBackend<BlockSize = BS>>(self, backend: &mut B) {
+        use cipher::typenum::Unsigned;
+        let w = B::ParBlocksSize::USIZE;
+        let mut rest = self.blocks;
+        if let Some((first, r)) = rest.split_first_mut() {
+            backend.decrypt_block_inplace(first);
+            rest = r;
+        }
+        if w > 1 && rest.len() >= w {
+            let (g, r) = rest.split_at_mut(w);
+            backend.decrypt_par_blocks_inplace(<&mut Array<Array<u8, BS>, B::ParBlocksSize>>::try_from(g).unwrap());
+            rest = r;
+        }
+        if rest.len() < w {
+            backend.decrypt_tail_blocks_inplace(rest);
+        } else {
+            for b in rest.iter_mut() {
+                backend.decrypt_block_inplace(b);
+            }
+        }
+    }
+}
